@@ -8,6 +8,7 @@ CONSTANTS Names <- NamesChain4
           Variants = {"fresh", "tree"}
           HarmTypes = {"file"}
           MaxEntries = 5
+          Reuse <- ReuseNone
           Devs = {}
 INVARIANTS Emit Confined NoStrayTouch NoTempLeft DoneClean WellFormed
 CHECK_DEADLOCK FALSE
